@@ -1,12 +1,12 @@
 #!/usr/bin/env python3
 """Populate /verif/seeded/<ID>-<C|D>/ from the second batch of agent deliveries per property:
    round 2 (work/pending2, work/confirm2; C01-C06, C14, C20) and round 3 (work/pending3, work/confirm3; the others).
-   A -> C, B -> D; round 4 (work/pending4, all properties): A -> E, B -> F; round 5 (work/pending5): A -> G, B -> H; round 6 (work/pending6, ten properties): A -> I, B -> J.  CAUGHT2: results of tools/try_mutant.sh after the strengthenings (quick tier, seed 1)."""
+   A -> C, B -> D; round 4 (work/pending4, all properties): A -> E, B -> F; round 5 (work/pending5): A -> G, B -> H; round 6 (work/pending6, ten properties): A -> I, B -> J; round 7 (work/pending7, eight properties, one change asked for): A -> K, B -> L.  CAUGHT2: results of tools/try_mutant.sh after the strengthenings (quick tier, seed 1)."""
 import json, os, shutil, glob, sys
 V = os.path.dirname(os.path.dirname(os.path.abspath(__file__)))
 CAUGHT2 = json.load(open(os.path.join(V, "tools/caught2.json")))
-LETS = {"2": {"A": "C", "B": "D"}, "3": {"A": "C", "B": "D"}, "4": {"A": "E", "B": "F"}, "5": {"A": "G", "B": "H"}, "6": {"A": "I", "B": "J"}}
-for rnd in ("2", "3", "4", "5", "6"):
+LETS = {"2": {"A": "C", "B": "D"}, "3": {"A": "C", "B": "D"}, "4": {"A": "E", "B": "F"}, "5": {"A": "G", "B": "H"}, "6": {"A": "I", "B": "J"}, "7": {"A": "K", "B": "L"}}
+for rnd in ("2", "3", "4", "5", "6", "7"):
     LET = LETS[rnd]
     for d in sorted(glob.glob(os.path.join(V, f"work/pending{rnd}/C*"))):
         pid = os.path.basename(d)
@@ -33,7 +33,7 @@ for rnd in ("2", "3", "4", "5", "6"):
             meta = json.load(open(f"{d}/{X}.meta.json"))
             meta.update({"breaks_property": pid, "delivered_as": f"{X} of round {rnd}",
                          "origin": "fresh sub-agent given only the property text, the summaries of the earlier changes for that property (to avoid repeats) and a scratch worktree",
-                         "confirmed_by_me": {"worktree": f"/tmp/zkmut{rnd}-{pid} (removed)", "suite_with_change": "106 passed (104 tests + 2 doctests), 0 failed",
+                         "confirmed_by_me": {"worktree": (f"/tmp/zkmut-{pid} (removed)" if rnd == "7" else f"/tmp/zkmut{rnd}-{pid} (removed)"), "suite_with_change": "106 passed (104 tests + 2 doctests), 0 failed",
                                               "demo_exit_with_change": c["demo_rc_with_change"], "demo_exit_without_change": c["demo_rc_without_change"],
                                               "command": f"tools/confirm_mutants{rnd}.sh " + pid},
                          "checks_run": "tools/try_mutant.sh <patch> <ids> (apply to /repo, bin/check --tier quick, git checkout)",
